@@ -139,6 +139,9 @@ type ifdReader struct {
 	firstIfdOffset   uint32
 	exifLength       uint32
 	readErr          error
+	// embedded is the tag being parsed straight from its directory entry (value in the 4-byte slot)
+	embedded        Tag
+	parsingEmbedded bool
 }
 
 func (ir *ifdReader) readIfdHeader(ifd ifds.Ifd) (err error) {
@@ -174,7 +177,9 @@ func (ir *ifdReader) readIfdHeader(ifd ifds.Ifd) (err error) {
 			t.logTag(ir.logDebug()).Send()
 		}
 		if t.IsEmbedded() {
+			ir.embedded, ir.parsingEmbedded = t, true
 			ir.parseTag(t)
+			ir.parsingEmbedded = false
 		} else {
 			ir.addTagBuffer(t)
 		}
